@@ -14,6 +14,15 @@ S_RULE = ("run i of a batch = scenario picked by splitmix(VERIF_SEED, property, 
           "sequence of (call kind, outcome kind, size class) seen at the seam plus task-pick decisions; 'distinct' counts different signatures, "
           "'non-trivial' those of runs in which at least one fault fired or the executor had more than one ready task to choose from.")
 
+T_RULE = ("run i = scenario picked by splitmix(VERIF_SEED, property, i); one xoshiro256** stream draws the program (tasks, steps, handle dispositions, thread assignment, queue sizes, max_interval, teardown point), "
+          "the run's preemption rate (swarm: 1/2, 1/6, 1/24, 1/100) and then every scheduling decision: at each scheduling point with more than one runnable logical thread, stay (choice 0) or switch to a chosen other thread. "
+          "A run's signature is the hash of the sequence of (chosen thread, previous thread) at those points; 'distinct' counts different signatures, 'non-trivial' those of runs with at least one such point.")
+T_REAL = ["compio-executor (all of it, with feature `verif`: std atomics preceded by scheduling points)", "crossbeam-queue ArrayQueue, slotmap (atomic between points)", "compio-send-wrapper (vendored: thread identity from the simulator)"]
+T_STUB = ["OS threads: logical threads are shuttle coroutines on one OS thread; park/unpark, spawn/join are shuttle's", "the scheduler: simsched::DeciderScheduler"]
+T_ASSUME = ["sequentially consistent interleavings only: reorderings allowed by the chosen atomic orderings are not explored",
+            "lock-free containers from third-party crates are atomic between two scheduling points",
+            "sampling, not enumeration"]
+
 PROPS = {
     "C11": {
         "title": "I/O helpers are invariant under chunking and transient errors",
@@ -113,5 +122,46 @@ PROPS = {
         "level_text": ("Seeded exploration of transport schedules under real TLS endpoints of both back-ends and both roles: handshake completes, request/response bytes equal, both sides observe a clean close, "
                        "nothing deadlocks or spins."),
         "level_note": "TLS half of C15 only. Trusts iosim's channel model (a lazy transport: progress only when polled, which is harsher than completion-based compio streams).",
+    },
+    "C04": {
+        "title": "Task and join-handle lifecycle",
+        "engine": "T",
+        "package": "check-t",
+        "bin": "check-t",
+        "design_ref": "§5, §7 C04",
+        "technique": "deterministic simulation: the real compio-executor (hook H4) on shuttle coroutines whose every context switch is drawn from the run's choice sequence; generated programs of spawn / self-wake / cross-thread wake / join / cancel / detach / handle drop / panic / early executor teardown with handle and waker operations on other logical threads; instrumented futures and outputs against per-task plans, quiescence and deadlock oracles; choice-sequence minimisation and replay",
+        "tiers": {
+            "quick": {"runs": 600_000, "time_limit_s": 60},
+            "thorough": {"runs": 60_000_000, "time_limit_s": 1500},
+        },
+        "rule": T_RULE,
+        "real": T_REAL,
+        "stub": T_STUB,
+        "assumptions": T_ASSUME + [
+            "a cancelled task's future may be dropped as late as executor teardown (the property demands exactly-once on the home thread, not promptness)",
+        ],
+        "level_text": ("Seeded exploration of thread interleavings (sequentially consistent) at every executor atomic, queue access and spin loop, for generated task/handle programs with up to 4 tasks and 6 logical threads. "
+                       "Checks: polled only on the home thread and never after Ready / drop / a cancellation that returned before the tick began; future dropped exactly once on the home thread; every output dropped exactly once; join results equal the plan; "
+                       "no joiner left waiting at quiescence; bounded starvation with self-waking tasks; use-after-free shows up as a hang (watchdog) or crash."),
+        "level_note": "Sequentially consistent interleavings only (no weak-memory reorderings); crossbeam's ArrayQueue and slotmap are treated as atomic between scheduling points; memory errors are only caught when they crash, hang or corrupt the oracles.",
+    },
+    "C03": {
+        "title": "A wake-up from any thread is never lost (executor layer; driver notify protocol and external-loop mode are Engine K+T work)",
+        "engine": "T",
+        "package": "check-t",
+        "bin": "check-t",
+        "design_ref": "§5, §7 C03 layer 1",
+        "technique": "deterministic simulation: the real compio-executor (hook H4) on shuttle coroutines with decider-driven context switches; 1-3 waker threads deliver concurrent and repeated cross-thread wakes (wake / wake_by_ref / clone) through a 1-2 entry cross-thread queue while the home thread ticks and parks; event-then-wake discipline, completion-by-quiescence and deadlock oracles; choice-sequence minimisation and replay",
+        "tiers": {
+            "quick": {"runs": 400_000, "time_limit_s": 60},
+            "thorough": {"runs": 40_000_000, "time_limit_s": 1500},
+        },
+        "rule": T_RULE,
+        "real": T_REAL,
+        "stub": T_STUB + ["the runtime's driver: here the executor's `waker` is a flag+unpark of the home thread (the AwakeFlag/notifier protocol is not in this check yet)"],
+        "assumptions": T_ASSUME,
+        "level_text": ("Seeded exploration of interleavings between waking threads and the home thread's tick / park sequence: after the event a task waits for has happened and its waker was invoked, the task is polled again "
+                       "(otherwise it cannot complete and the run ends in `not-completed`, `join-never-resolved` or a deadlock); a full cross-thread queue makes the waker wait, not discard."),
+        "level_note": "Layer 1 (executor) of the three layers in DESIGN §7 C03. Sequentially consistent interleavings only.",
     },
 }
